@@ -43,6 +43,45 @@ def gen_cases(ctx):
             # MFI branches on the sign bit of values popped from its window; the sign of a NaN is not
             # modelled (Coq has one NaN), so after non-finite inputs only outputs are compared for MFI
             cases.append(Case("%s_p%d_%d" % (ind, p, j), ops + out, dump=() if ind == "MFI" else (0,), meta={"ind": ind, "period": p, "n_feed": n_feed}))
+    # counters narrower than usize (u8 / u16 / u32) wrap at 2^8, 2^16: periods just around 2^8 for every indicator ...
+    for ind in ALL:
+        if nper(ind) == 0:
+            continue
+        for p in (255, 256, 257):
+            k = nper(ind)
+            pr = (p, 3 if k >= 2 else 0, 2 if k >= 3 else 0, 2.0 if ind in HAS_MULT else 0.0)
+            n_feed = p + 300 if ind in ("MAD", "CCI", "ER") else 2 * p + 10
+            cases.append(Case("%s_w%d" % (ind, p), [new_op(0, ind, pr)] + feed(r, ind, n_feed, specials=0.0, p=p), dump=(),
+                              meta={"ind": ind, "period": p, "n_feed": n_feed}))
+    # ... and one period beyond 2^16 fed beyond 2^16 calls, on the implementation only (the list-based model costs O(period) per ring
+    # update); MAD / CCI / ER do O(period) work per call themselves and are left to the thorough tier
+    for ind in ALL:
+        if nper(ind) == 0 or (ind in ("MAD", "CCI", "ER") and not ctx.thorough):
+            continue
+        p = 65537
+        k = nper(ind)
+        pr = (p, 3 if k >= 2 else 0, 2 if k >= 3 else 0, 2.0 if ind in HAS_MULT else 0.0)
+        n_feed = p + 40
+        base = feed(r, ind, 97, specials=0.0, p=7)
+        feeds = [base[i % 97] for i in range(n_feed)]
+        cases.append(Case("%s_big%d" % (ind, p), [new_op(0, ind, pr)] + feeds, dump=(),
+                          meta={"ind": ind, "period": p, "n_feed": n_feed, "harness_only": True}))
+    # monotone ramps with decimal steps (sums of rounded steps against one rounded difference: assertions that hold over the reals
+    # but not in binary64 fire there)
+    for ind in ALL:
+        for p in ((2, 3, 5, 14) if nper(ind) > 0 else (0,)):
+            for d in (0.1, 0.3, 0.7, -0.3):
+                k = nper(ind)
+                pr = (p if k >= 1 else 0, 3 if k >= 2 else 0, 2 if k >= 3 else 0, 2.0 if ind in HAS_MULT else 0.0)
+                x0 = r.choice([0.1, 0.2, 100.3, 7.7])
+                n_feed = 70
+                if ind in NO_SCALAR:
+                    feeds = [("b", 0, x0 + d * i, x0 + d * i + 0.05, x0 + d * i - 0.05, x0 + d * i, 10.0) for i in range(n_feed)] if True else []
+                    feeds = [("b", 0, max(v[2], 0.01), max(v[3], 0.02), max(min(v[4], v[3]), 0.005), max(min(v[5], v[3]), 0.005), v[6]) for v in feeds]
+                else:
+                    feeds = [("n", 0, x0 + d * i) for i in range(n_feed)]
+                cases.append(Case("%s_ramp_p%d_%s" % (ind, p, str(d).replace(".", "_").replace("-", "m")), [new_op(0, ind, pr)] + feeds, dump=(),
+                                  meta={"ind": ind, "period": max(p, 1), "n_feed": n_feed}))
     return cases
 
 
